@@ -50,11 +50,10 @@ Fixpoint index_of (v : nat) (l : list nat) : option nat :=
   | x :: l => if Nat.eqb x v then Some 0 else match index_of v l with Some j => Some (S j) | None => None end
   end.
 
-(** [reconstruct]'s [rhs_asst]: externals from the parent's assignment ([dict(zip(ext, nt_asst))]),
-    then the non-external nodes in order of first appearance over the edges from the pointer
-    row (the counter [ii]), then 0 for nodes with no edges (repair b0c8a1c).  For a repeated
-    external node the dict keeps the LAST value, the model the first; both agree whenever
-    [sel a ext = xi] is satisfiable, and otherwise the cell's value is -inf. *)
+(** what [reconstruct]'s [rhs_asst] amounts to (closed form used in the theorems; the loop
+    itself is [rhs_asst_code] below): externals from the parent's assignment, then the
+    non-external nodes in order of first appearance over the edges from the pointer row, then 0
+    for nodes with no edges (repair b0c8a1c). *)
 Definition node_val (r : rule) (xi ptr : list nat) (v : nat) : nat :=
   match index_of v (r_ext r) with
   | Some j => nth j xi 0
@@ -62,6 +61,37 @@ Definition node_val (r : rule) (xi ptr : list nat) (v : nat) : nat :=
   end.
 Definition rebuild (r : rule) (xi ptr : list nat) : list nat :=
   map (node_val r xi ptr) (seq 0 (length (r_nodes r))).
+
+(** the same, statement by statement as in [reconstruct]: [rhs_asst] is a dict (association list
+    in insertion order; a later binding of a key overrides an earlier one),
+      rhs_asst = dict(zip(rule.rhs.ext, nt_asst)); ii = 0
+      for e in edges: for v in e.nodes: if v not in rhs_asst: rhs_asst[v] = pointer_row[ii]; ii += 1
+      assert ii == len(pointer_row)
+      for v in nodes: if v not in rhs_asst: rhs_asst[v] = 0
+    ([None]: the IndexError of [pointer_row[ii]] beyond the row, or the assertion).
+    Proofs/ViterbiAlg_rhsasst.v: this is [rebuild] whenever the row has the right length and
+    [nt_asst] is consistent on repeated external nodes. *)
+Fixpoint dget (d : list (nat * nat)) (v : nat) : option nat :=
+  match d with
+  | [] => None
+  | (k, x) :: d => match dget d v with
+                   | Some y => Some y
+                   | None => if Nat.eqb k v then Some x else None
+                   end
+  end.
+Fixpoint fill_nodes (vs : list nat) (d : list (nat * nat)) (ptr : list nat) (ii : nat) : list (nat * nat) * nat :=
+  match vs with
+  | [] => (d, ii)
+  | v :: vs => match dget d v with
+               | Some _ => fill_nodes vs d ptr ii
+               | None => fill_nodes vs (d ++ [(v, nth ii ptr 0)]) ptr (S ii)
+               end
+  end.
+Definition rhs_asst_code (r : rule) (xi ptr : list nat) : option (list nat) :=
+  let '(d, ii) := fill_nodes (flat_map snd (r_edges r)) (combine (r_ext r) xi) ptr 0 in
+  if Nat.eqb ii (length ptr)
+  then Some (map (fun v => match dget d v with Some x => x | None => 0 end) (seq 0 (length (r_nodes r))))
+  else None.
 
 (** * the arg-max einsum of one rule *)
 (** candidate assignments at external assignment xi: every node has a value of its domain,
@@ -301,8 +331,9 @@ Fixpoint reconstruct_model (G : grammar) (T : cst) (fuel : nat) (X : nat) (xi : 
         match nth lp rps None with
         | None => None
         | Some ptr =>
-          if negb (Nat.eqb (length ptr) (length (summed r))) then None else
-          let a := rebuild r xi ptr in
+          match rhs_asst_code r xi ptr with
+          | None => None
+          | Some a =>
           match opt_all (map (fun ed => if is_term G (fst ed) then Some None
                                         else match reconstruct_model G T f (fst ed) (sel a (snd ed)) with
                                              | Some t => Some (Some t)
@@ -310,6 +341,7 @@ Fixpoint reconstruct_model (G : grammar) (T : cst) (fuel : nat) (X : nat) (xi : 
                                              end) (r_edges r)) with
           | Some ch => Some (DT gi a ch)
           | None => None
+          end
           end
         end
       end
